@@ -182,6 +182,11 @@ func (g *Gen) trade(pair uint64) {
 	if oid != 0 {
 		g.msg("liquidity.cancel", liquiditytypes.NewMsgCancelOrder(AppSwap, U("u1"), pair, oid))
 	}
+	if pair == 1 {
+		// cancel-all naming several pairs (the event lists the pair ids); u2 and u6 leave resting orders every round
+		u := []string{"u2", "u6"}[g.R.Intn(2)]
+		g.msg("liquidity.cancelall.multi", liquiditytypes.NewMsgCancelAllOrders(AppSwap, U(u), []uint64{1, 2, 3}))
+	}
 }
 
 // bidAll places one market bid on every open V2 auction (partial on Dutch, raising on English).
